@@ -108,7 +108,18 @@ func runCachelin(w *ndWriter, seed int64, nops int, nreaders int) int {
 	return int(atomic.LoadInt64(&reads))
 }
 
-func hw_reader(tr *Tracer, cache kcache.VerifCache, cname string, r int, seed int64, stop *int32, reads *int64) {
+// listGetter is what a reader needs of a cache (kcache.VerifCache and every kcache.CacheReader have it).
+type listGetter interface {
+	Get(ns string, name string) (metav1.Object, error)
+	List() ([]metav1.Object, error)
+}
+
+func hw_reader(tr *Tracer, cache listGetter, cname string, r int, seed int64, stop *int32, reads *int64) {
+	hw_readerPaced(tr, cache, cname, r, seed, stop, reads, 0)
+}
+
+// hw_readerPaced: pace > 0 spaces the reads (a reader next to a real-time controller scenario).
+func hw_readerPaced(tr *Tracer, cache listGetter, cname string, r int, seed int64, stop *int32, reads *int64, pace time.Duration) {
 	rng := rand.New(rand.NewSource(seed*31 + int64(r)))
 	me := fmt.Sprintf("reader%d", r)
 	var kept []metav1.Object
@@ -149,6 +160,9 @@ func hw_reader(tr *Tracer, cache kcache.VerifCache, cname string, r int, seed in
 			}
 		}
 		atomic.AddInt64(reads, 1)
+		if pace > 0 {
+			time.Sleep(pace/2 + time.Duration(rng.Int63n(int64(pace))))
+		}
 		if rng.Intn(8) == 0 {
 			time.Sleep(time.Duration(rng.Intn(50)) * time.Microsecond)
 		}
